@@ -546,12 +546,16 @@ class ISD(model.Document):
 
     # prune the element if either:
     # * the element has children and the associated region is neither the default nor the root region
-    # * the element has no children and the associated region is not the root region
+    # * the element has no children and the associated region is not the root region, unless it is a ruby base or
+    #   ruby base container, which is retained even if empty
 
     if (
         not isinstance(element, model.Region) and
         associated_region is not selected_region and
-        (not element.has_children() or associated_region is not None)
+        (
+          (not element.has_children() and not isinstance(element, (model.Rb, model.Rbc))) or
+          associated_region is not None
+        )
       ):
       return None
 
@@ -1508,11 +1512,15 @@ def _clone_doc_with_one_region(doc: model.ContentDocument, region_id: str):
 
     # prune the element if either:
     # * the element has children and the associated region is neither the default nor the root region
-    # * the element has no children and the associated region is not the root region
+    # * the element has no children and the associated region is not the root region, unless it is a ruby base or
+    #   ruby base container, which is retained even if empty
 
     if (
         associated_region is not selected_region and
-        (not element.has_children() or associated_region is not None)
+        (
+          (not element.has_children() and not isinstance(element, (model.Rb, model.Rbc))) or
+          associated_region is not None
+        )
       ):
       return None
 
